@@ -17,6 +17,9 @@ Each transformation is applied to EVERY applicable site of a scratch copy of /re
   plus     `xs.append(e)` -> `xs += [e]`, `xs.extend(ys)` -> `xs += ys`
   ann      every `x = e` (also module constants and enum members) annotated: `x: 'object' = e`
   private  every private method renamed (`_m` -> `_m_impl`) with all its uses
+  inline   single-use call-free temporaries substituted into the next statement
+  unfold   `y = [E for x in S if C]` written as an append loop
+  nest     `if a and b:` <-> nested ifs (both directions, no else)
 
 usage: tools_xform.py [kind ...]        (default: all)
 """
@@ -203,7 +206,87 @@ class SwapIf(ast.NodeTransformer):
         return node
 
 
-KINDS = {'locals': RenameLocals, 'swapif': SwapIf, 'cmp': Cmp, 'aug': Aug, 'tmp': Tmp, 'len': Len, 'guard': Guard, 'dem': DeM,
+class Inline(ast.NodeTransformer):
+    """x = <call-free expr>; <next statement reads x once> (x bound and read nowhere else) -> substituted"""
+    def visit_FunctionDef(self, node):
+        self.generic_visit(node)
+        loads, stores = {}, {}
+        for n in ast.walk(node):
+            if isinstance(n, ast.Name):
+                d = loads if isinstance(n.ctx, ast.Load) else stores
+                d[n.id] = d.get(n.id, 0) + 1
+        def blk(stmts):
+            i = 0
+            while i < len(stmts):
+                st = stmts[i]
+                for f in ('body', 'orelse', 'finalbody'):
+                    v = getattr(st, f, None)
+                    if isinstance(v, list) and v and isinstance(v[0], ast.stmt) and not isinstance(st, (ast.FunctionDef, ast.ClassDef)):
+                        blk(v)
+                if isinstance(st, ast.Assign) and len(st.targets) == 1 and isinstance(st.targets[0], ast.Name) and i + 1 < len(stmts) \
+                        and loads.get(st.targets[0].id) == 1 and stores.get(st.targets[0].id) == 1 \
+                        and not any(isinstance(x, (ast.Call, ast.Yield, ast.YieldFrom, ast.Lambda, ast.ListComp, ast.DictComp, ast.GeneratorExp)) for x in ast.walk(st.value)) \
+                        and isinstance(stmts[i + 1], (ast.Assign, ast.Expr, ast.Return, ast.AugAssign)):
+                    nm = st.targets[0].id
+                    nxt = stmts[i + 1]
+                    uses = [x for x in ast.walk(nxt) if isinstance(x, ast.Name) and x.id == nm and isinstance(x.ctx, ast.Load)]
+                    if len(uses) == 1:
+                        class S(ast.NodeTransformer):
+                            def visit_Name(self, n):
+                                return copy.deepcopy(st.value) if n is uses[0] else n
+                        stmts[i + 1] = S().visit(nxt)
+                        del stmts[i]
+                        cnt[0] += 1
+                        continue
+                i += 1
+        blk(node.body)
+        return node
+
+
+class Unfold(ast.NodeTransformer):
+    """y = [E for x in S if C]  ->  y = []; for x in S: if C: y.append(E)"""
+    def generic_visit(self, node):
+        super().generic_visit(node)
+        for f in ('body', 'orelse', 'finalbody'):
+            v = getattr(node, f, None)
+            if isinstance(v, list) and v and isinstance(v[0], ast.stmt):
+                out = []
+                for st in v:
+                    if isinstance(st, ast.Assign) and len(st.targets) == 1 and isinstance(st.targets[0], ast.Name) and isinstance(
+                            st.value, ast.ListComp) and len(st.value.generators) == 1 and not any(
+                                isinstance(x, ast.Name) and x.id == st.targets[0].id for x in ast.walk(st.value)):
+                        g = st.value.generators[0]
+                        y = st.targets[0].id
+                        app = ast.Expr(value=ast.Call(func=ast.Attribute(value=ast.Name(id=y, ctx=ast.Load()), attr='append', ctx=ast.Load()),
+                                                      args=[st.value.elt], keywords=[]))
+                        body = [app]
+                        for c in reversed(g.ifs):
+                            body = [ast.If(test=c, body=body, orelse=[])]
+                        out.append(ast.copy_location(ast.Assign(targets=[ast.Name(id=y, ctx=ast.Store())], value=ast.List(elts=[], ctx=ast.Load()), type_comment=None), st))
+                        out.append(ast.copy_location(ast.For(target=g.target, iter=g.iter, body=body, orelse=[], type_comment=None), st))
+                        cnt[0] += 1
+                    else:
+                        out.append(st)
+                setattr(node, f, out)
+        return node
+
+
+class Nest(ast.NodeTransformer):
+    """if a and b: X (no else) -> if a: if b: X ;  if a: (only) if b: X -> if a and b: X"""
+    def visit_If(self, n):
+        self.generic_visit(n)
+        if not n.orelse and isinstance(n.test, ast.BoolOp) and isinstance(n.test.op, ast.And) and len(n.test.values) == 2:
+            cnt[0] += 1
+            inner = ast.copy_location(ast.If(test=n.test.values[1], body=n.body, orelse=[]), n)
+            return ast.copy_location(ast.If(test=n.test.values[0], body=[inner], orelse=[]), n)
+        if not n.orelse and len(n.body) == 1 and isinstance(n.body[0], ast.If) and not n.body[0].orelse \
+                and not isinstance(n.test, ast.BoolOp) and not isinstance(n.body[0].test, ast.BoolOp):
+            cnt[0] += 1
+            return ast.copy_location(ast.If(test=ast.BoolOp(op=ast.And(), values=[n.test, n.body[0].test]), body=n.body[0].body, orelse=[]), n)
+        return n
+
+
+KINDS = {'inline': Inline, 'unfold': Unfold, 'nest': Nest, 'locals': RenameLocals, 'swapif': SwapIf, 'cmp': Cmp, 'aug': Aug, 'tmp': Tmp, 'len': Len, 'guard': Guard, 'dem': DeM,
          'alias': Alias, 'plus': Plus, 'ann': Ann}
 
 
